@@ -31,6 +31,8 @@ void mc_state(const void * canon, size_t len);
 /* Record a property violation for this execution (first one wins); does not unwind. */
 void mc_fail(const char * sig, const char * fmt, ...) __attribute__((format(printf, 2, 3)));
 int mc_failed(void);
+/* The process state can no longer be restored by teardown (after a violation): continue in a fresh worker process. */
+void mc_poison(void);
 /* Trace line (kept only in replay / verification runs). */
 void mc_note(const char * fmt, ...) __attribute__((format(printf, 1, 2)));
 int mc_noting(void);
